@@ -77,7 +77,7 @@ pub fn build<F: Flavour>(g: &GCase) -> Vec<F::Node> {
 
 const BUDGET_MSG: &str = "STEP BUDGET EXCEEDED";
 
-fn path_data<F: Flavour>(nodes: &[F::Node], p: &PathB<F>, out: &mut SOut) {
+pub fn path_data<F: Flavour>(nodes: &[F::Node], p: &PathB<F>, out: &mut SOut) {
     let edges = p.edges();
     let tris: Vec<Tri> = edges.iter().map(|e| F::tri(e)).collect();
     let mut problems = vec![];
@@ -198,6 +198,91 @@ pub fn exec<F: Flavour>(nodes: &[F::Node], root: Key, cell: &Cell, meth: &MethSp
         }
     }
     out.calls = calls.into_inner();
+    out
+}
+
+/// One search / ordering object asked twice; the last edge of `g` is connected
+/// between the two calls. Returns the two observations (first judged against
+/// g without its last edge, second against g).
+pub fn exec_reuse<F: Flavour>(g: &GCase, root: Key, cell: &Cell) -> Option<(GCase, SOut, SOut)> {
+    if g.edges.is_empty() {
+        return None;
+    }
+    if F::SYNC {
+        hook::install_self_deadlock_detector();
+    }
+    let mut g0 = g.clone();
+    let last = g0.edges.pop().unwrap();
+    let nodes = build::<F>(&g0);
+    let mk = || SOut { handles_ok: true, found_same_alloc: true, ..Default::default() };
+    let (mut a, mut b) = (mk(), mk());
+    let r = catch_unwind(AssertUnwindSafe(|| {
+        let mut between = || F::connect(&nodes[last.0 as usize], &nodes[last.1 as usize], last.2);
+        let rootn = &nodes[root as usize];
+        let (mut a, mut b) = (mk(), mk());
+        match cell {
+            Cell::Search(cfg) => {
+                let (p1, p2) = F::search_path_twice(rootn, cfg, &mut between);
+                if let Some(p) = p1 {
+                    path_data::<F>(&nodes, &p, &mut a);
+                }
+                if let Some(p) = p2 {
+                    path_data::<F>(&nodes, &p, &mut b);
+                }
+            }
+            Cell::Order(cfg) => {
+                let (o1, o2) = F::order_twice(rootn, cfg, &mut between);
+                for (o, out) in [(o1, &mut a), (o2, &mut b)] {
+                    match o {
+                        OrderRes::Nodes(v) => out.nodes = Some(v.iter().map(|n| F::key(n)).collect()),
+                        OrderRes::Edges(v) => out.edges = Some(v.iter().map(|e| F::tri(e)).collect()),
+                    }
+                }
+            }
+        }
+        (a, b)
+    }));
+    match r {
+        Ok((x, y)) => {
+            a = x;
+            b = y;
+        }
+        Err(e) => {
+            a.panic = Some(panic_msg(e));
+            b.panic = a.panic.clone();
+        }
+    }
+    Some((g0, a, b))
+}
+
+/// search_path() first, then `cell`'s own terminal on the same search object (closure-free)
+pub fn exec_after_path<F: Flavour>(nodes: &[F::Node], root: Key, cfg: &SearchCfg) -> SOut {
+    if F::SYNC {
+        hook::install_self_deadlock_detector();
+    }
+    let mut out = SOut { handles_ok: true, found_same_alloc: true, ..Default::default() };
+    let r = catch_unwind(AssertUnwindSafe(|| {
+        let mut o = SOut { handles_ok: true, found_same_alloc: true, ..Default::default() };
+        match F::search_path_then(&nodes[root as usize], cfg, cfg.term) {
+            SearchRes::Node(n) => {
+                if let Some(n) = n {
+                    let k = F::key(&n);
+                    o.found = Some(k);
+                    o.found_same_alloc = (k as usize) < nodes.len() && F::addr(&n) == F::addr(&nodes[k as usize]);
+                }
+            }
+            SearchRes::Path(p) => {
+                if let Some(p) = p {
+                    path_data::<F>(nodes, &p, &mut o);
+                }
+            }
+        }
+        o
+    }));
+    match r {
+        Ok(o) => out = o,
+        Err(e) => out.panic = Some(panic_msg(e)),
+    }
     out
 }
 
